@@ -8,9 +8,12 @@ cd /verif/harness || exit 2
 mkdir -p /verif/.work/bin
 cp /repo/go.sum ./go.sum 2>/dev/null
 RACE_PROPS=" C07 C12 C15 C16 "
+CHECKPTR_PROPS=" C03 C18 "
 build() { # $1 = plain|race
   if [ "$1" = race ]; then
     go build -race -tags verif -o /verif/.work/bin/vcheck-race ./cmd/vcheck
+  elif [ "$1" = checkptr ]; then
+    go build -gcflags=all=-d=checkptr -tags verif -o /verif/.work/bin/vcheck-checkptr ./cmd/vcheck
   else
     go build -tags verif -o /verif/.work/bin/vcheck ./cmd/vcheck
   fi
@@ -19,6 +22,7 @@ case "${1:-}" in
   build)
     build plain || { echo "INCONCLUSIVE harness build failed"; exit 2; }
     build race || { echo "INCONCLUSIVE harness race build failed"; exit 2; }
+    build checkptr || { echo "INCONCLUSIVE harness checkptr build failed"; exit 2; }
     exit 0 ;;
   replay)
     build plain || exit 2
@@ -28,6 +32,9 @@ PROP="$1"; TIER="${2:-${VERIF_TIER:-quick}}"
 if [[ "$RACE_PROPS" == *" $PROP "* ]]; then
   build race || { echo "INCONCLUSIVE property=$PROP harness race build failed against /repo"; exit 2; }
   exec /verif/.work/bin/vcheck-race -prop "$PROP" -tier "$TIER"
+elif [[ "$CHECKPTR_PROPS" == *" $PROP "* ]]; then
+  build checkptr || { echo "INCONCLUSIVE property=$PROP harness checkptr build failed against /repo"; exit 2; }
+  exec /verif/.work/bin/vcheck-checkptr -prop "$PROP" -tier "$TIER"
 else
   build plain || { echo "INCONCLUSIVE property=$PROP harness build failed against /repo"; exit 2; }
   exec /verif/.work/bin/vcheck -prop "$PROP" -tier "$TIER"
